@@ -995,34 +995,52 @@ Definition un_parse (s : bstr) : option Z :=
   | c :: r => if c =? 45 then Some (- (Z.of_nat (length r) - 1))%Z else Some (Z.of_nat (length s) - 1)%Z
   | [] => None
   end.
+(* +Inf gets a short spelling of its own so that the examples stay computable *)
+Definition tf (f : Z) : bstr := if (canon_txt f =? posinf)%Z then [73] else un (canon_txt f).
+Definition tp (s : bstr) : option Z := if bstr_eqb s [73] then Some posinf else un_parse s.
 Definition toy_oracle : oracles :=
-  mkOr (fun f => un (canon_txt f)) (fun f => un (canon_txt f)) un (fun z => z) (fun z => z) (fun z => z)
-       un_parse (fun s => Some s) (fun _ => None) un_parse.
+  mkOr tf tf un (fun z => z) (fun z => z) (fun z => z) tp (fun s => Some s) (fun _ => None) un_parse.
 
 Lemma un_parse_un : forall z, un_parse (un z) = Some z.
 Proof.
-  intros z. unfold un, un_parse. destruct (z <? 0)%Z eqn:E.
-  - apply Z.ltb_lt in E. simpl. rewrite repeat_length. f_equal. rewrite Nat2Z.inj_succ, Zabs2Nat.id_abs. lia.
-  - apply Z.ltb_ge in E. simpl. rewrite repeat_length. f_equal. rewrite !Nat2Z.inj_succ, Zabs2Nat.id_abs. lia.
+  intros z. unfold un. destruct (z <? 0)%Z eqn:E.
+  - apply Z.ltb_lt in E.
+    change ([45] ++ repeat 49 (S (Z.abs_nat z))) with (45 :: repeat 49 (S (Z.abs_nat z))).
+    unfold un_parse. change (45 =? 45) with true. cbv iota. rewrite repeat_length.
+    f_equal. rewrite Nat2Z.inj_succ, Zabs2Nat.id_abs. lia.
+  - apply Z.ltb_ge in E.
+    change ([] ++ repeat 49 (S (Z.abs_nat z))) with (49 :: repeat 49 (Z.abs_nat z)).
+    unfold un_parse. change (49 =? 45) with false. cbv iota.
+    change (length (49 :: repeat 49 (Z.abs_nat z))) with (S (length (repeat 49 (Z.abs_nat z)))).
+    rewrite repeat_length. f_equal. rewrite Nat2Z.inj_succ, Zabs2Nat.id_abs. lia.
 Qed.
 
 Lemma forallb_repeat : forall (p : N -> bool) c n, p c = true -> forallb p (repeat c n) = true.
 Proof. induction n; simpl; intros; auto. rewrite H. auto. Qed.
 
 Lemma canon_nan_idem : forall x, canon_nan (canon_nan x) = canon_nan x.
-Proof. intros x. unfold canon_nan at 2. destruct (is_nan x) eqn:E; [reflexivity|]. unfold canon_nan. now rewrite E. Qed.
+Proof. intros x. unfold canon_nan. destruct (is_nan x) eqn:E; [reflexivity|]. now rewrite E. Qed.
+
+Lemma un_not_inf : forall z, bstr_eqb (un z) [73] = false.
+Proof. intros z. unfold un. destruct (z <? 0)%Z; reflexivity. Qed.
+
+Lemma un_shape : forall z, un z <> [] /\ forallb is_fchar (un z) = true.
+Proof.
+  intros z. unfold un. split.
+  - destruct (z <? 0)%Z; discriminate.
+  - rewrite forallb_app. rewrite forallb_repeat by reflexivity. destruct (z <? 0)%Z; reflexivity.
+Qed.
 
 Lemma oracle_ok_satisfiable : exists O, oracle_ok O.
 Proof.
   exists toy_oracle. constructor; simpl.
-  - intros f. split.
-    + unfold un. destruct (canon_txt f <? 0)%Z; discriminate.
-    + unfold un. rewrite forallb_app. rewrite forallb_repeat by reflexivity.
-      destruct (canon_txt f <? 0)%Z; reflexivity.
-  - intros f. exists (canon_txt f). split; [apply un_parse_un|]. unfold canon_txt. apply canon_nan_idem.
+  - intros f. unfold tf. destruct (canon_txt f =? posinf)%Z; [split; [discriminate|reflexivity]|apply un_shape].
+  - intros f. unfold tf, tp. destruct (canon_txt f =? posinf)%Z eqn:E.
+    + exists posinf. split; [reflexivity|]. apply Z.eqb_eq in E. now rewrite E.
+    + exists (canon_txt f). rewrite un_not_inf. split; [apply un_parse_un|]. unfold canon_txt. apply canon_nan_idem.
   - reflexivity.
   - intros z Hz. repeat split.
-    + unfold un. destruct (z <? 0)%Z; discriminate.
+    + apply un_shape.
     + unfold un. assert ((z <? 0)%Z = false) as -> by (apply Z.ltb_ge; lia). simpl app.
       apply forallb_repeat. reflexivity.
     + apply un_parse_un.
@@ -1038,7 +1056,6 @@ Lemma example_fams_wf : Forall wf_family example_fams /\ length (entries_text to
 Proof.
   split; [|reflexivity].
   repeat constructor; try reflexivity; try discriminate.
-  unfold ts_ok. simpl. lia.
 Qed.
 
 Lemma example_roundtrip_computes :
